@@ -32,6 +32,8 @@ THEOREMS = [
     # transforms/tree.py: CutByFurcationOrder._enter as translated is the model's callback; the pipeline cut_tree(x, enter=self._enter) equals Sub.cutByOrder
     "RefineCut.isFurcation_generated", "RefineCut.orderEnter_refines", "RefineCut.cutByOrder_refines",
     "C06.generated_orderEnter_eq_model", "C06.generated_cutByOrder_eq_model",
+    # CutByType.__call__ as translated (the removals set, the leave closure, traversal, to_subtree) equals Sub.cutByType
+    "RefineCut.typeLeave_closure", "RefineCut.typeLeaveL_step", "RefineCut.cutByType_refines", "C06.generated_cutByType_eq_model",
 ]
 TRUSTED = ["hand-written models Model/Subtree.lean of to_sub_topology / propagate_removal / get_subtree_impl / to_subtree / cut_tree / CutByType / "
            "CutByFurcationOrder / CutShortTipBranch (tied by the c06.ops correspondence: new parents and new→old mapping compared exactly)"]
